@@ -1,4 +1,5 @@
 import Dashu.Proofs.Int.Repr
+import Dashu.Proofs.Int.Ops
 /-
   C01 — Integer ring arithmetic is exact for every operand size and sign.
 
@@ -47,6 +48,262 @@ theorem from_buffer_exact (W : Nat) (ws : List Nat) (h : IsWords W ws) :
 theorem add_dword_exact (W a b : Nat) (ha : a < 2 ^ (2 * W)) (hb : b < 2 ^ (2 * W)) :
     (addDword W a b).value W = a + b ∧ (addDword W a b).Canon W :=
   ⟨addDword_value W a b ha hb, addDword_canon W a b ha hb⟩
+
+-- ====================================================================== + and − : word layer
+
+/-- `add_in_place` (lhs += rhs, `rhs.len() ≤ lhs.len()`) -/
+theorem add_in_place_exact (W : Nat) (lhs rhs : List Nat)
+    (hl : IsWords W lhs) (hr : IsWords W rhs) (hlen : rhs.length ≤ lhs.length) :
+    let r := addInPlace W lhs rhs
+    val W r.1 + 2 ^ (W * lhs.length) * r.2 = val W lhs + val W rhs ∧
+    r.1.length = lhs.length ∧ IsWords W r.1 ∧ r.2 ≤ 1 :=
+  addInPlace_spec W lhs rhs hl hr hlen
+
+/-- `sub_in_place`; the borrow is set exactly when `lhs < rhs` -/
+theorem sub_in_place_exact (W : Nat) (lhs rhs : List Nat)
+    (hl : IsWords W lhs) (hr : IsWords W rhs) (hlen : rhs.length ≤ lhs.length) :
+    let r := subInPlace W lhs rhs
+    (val W r.1 + val W rhs = val W lhs + 2 ^ (W * lhs.length) * r.2 ∧
+     r.1.length = lhs.length ∧ IsWords W r.1 ∧ r.2 ≤ 1) ∧
+    (r.2 = 0 ↔ val W rhs ≤ val W lhs) :=
+  ⟨subInPlace_spec W lhs rhs hl hr hlen, subInPlace_borrow_iff W lhs rhs hl hr hlen⟩
+
+/-- `add_word_in_place` / `sub_word_in_place` -/
+theorem add_word_in_place_exact (W : Nat) (ws : List Nat) (r : Nat) (h : IsWords W ws)
+    (hr : r < 2 ^ W) (hne : ws ≠ []) :
+    let o := addWord W ws r
+    val W o.1 + 2 ^ (W * ws.length) * o.2 = val W ws + r ∧
+    o.1.length = ws.length ∧ IsWords W o.1 ∧ o.2 ≤ 1 :=
+  addWord_spec W ws r h hr hne
+
+theorem sub_word_in_place_exact (W : Nat) (ws : List Nat) (r : Nat) (h : IsWords W ws)
+    (hr : r < 2 ^ W) (hne : ws ≠ []) :
+    let o := subWord W ws r
+    val W o.1 + r = val W ws + 2 ^ (W * ws.length) * o.2 ∧
+    o.1.length = ws.length ∧ IsWords W o.1 ∧ o.2 ≤ 1 :=
+  subWord_spec W ws r h hr hne
+
+/-- `add_dword_in_place` / `sub_dword_in_place` on a slice of ≥ 2 words -/
+theorem add_dword_in_place_exact (W : Nat) (ws : List Nat) (d : Nat)
+    (hw : IsWords W ws) (hlen : 2 ≤ ws.length) (hd : d < 2 ^ (2 * W)) :
+    let r := addDwordInPlace W ws d
+    val W r.1 + 2 ^ (W * ws.length) * r.2 = val W ws + d ∧
+    r.1.length = ws.length ∧ IsWords W r.1 ∧ r.2 ≤ 1 :=
+  addDwordInPlace_spec W ws d hw hlen hd
+
+theorem sub_dword_in_place_exact (W : Nat) (ws : List Nat) (d : Nat)
+    (hw : IsWords W ws) (hlen : 2 ≤ ws.length) (hd : d < 2 ^ (2 * W)) :
+    let r := subDwordInPlace W ws d
+    val W r.1 + d = val W ws + 2 ^ (W * ws.length) * r.2 ∧
+    r.1.length = ws.length ∧ IsWords W r.1 ∧ r.2 ≤ 1 :=
+  subDwordInPlace_spec W ws d hw hlen hd
+
+/-- `sub_in_place_with_sign`: the buffer keeps its length (equal top words are zeroed, not dropped),
+    holds `|lhs − rhs|`, and the returned sign is `Negative` exactly when `lhs < rhs`. -/
+theorem sub_in_place_with_sign_exact (W : Nat) (lhs rhs : List Nat) (hl : IsWords W lhs)
+    (hr : IsWords W rhs) (hlen : rhs.length ≤ lhs.length) :
+    let r := subInPlaceWithSign W lhs rhs
+    r.2.length = lhs.length ∧ IsWords W r.2 ∧
+    (r.1 = false → val W r.2 + val W rhs = val W lhs) ∧
+    (r.1 = true → val W r.2 + val W lhs = val W rhs ∧ val W lhs < val W rhs) :=
+  subInPlaceWithSign_spec W lhs rhs hl hr hlen
+
+-- ====================================================================== + and − : dispatch layer
+
+/-- `add_large_dword` and `add_large` (either operand order, any lengths) -/
+theorem add_large_dword_exact (W : Nat) (hW : 1 ≤ W) (buf : List Nat) (d : Nat)
+    (hb : IsWords W buf) (hlen : 2 ≤ buf.length) (hd : d < 2 ^ (2 * W)) :
+    (addLargeDword W buf d).value W = val W buf + d ∧ (addLargeDword W buf d).Canon W :=
+  ⟨addLargeDword_value W buf d hb hlen hd, addLargeDword_canon W hW buf d hb hlen hd⟩
+
+theorem add_large_exact (W : Nat) (hW : 1 ≤ W) (buffer rhs : List Nat)
+    (hb : IsWords W buffer) (hr : IsWords W rhs) :
+    (addLarge W buffer rhs).value W = val W buffer + val W rhs ∧ (addLarge W buffer rhs).Canon W :=
+  addLarge_spec W hW buffer rhs hb hr
+
+/-- **UBig + UBig** — every ownership form (`form` = 0,1,2 selects ref/ref|val/val, ref/val, val/ref)
+    of `TypedRepr + TypedRepr` returns the canonical representation of the exact sum. -/
+theorem u_add_exact (W : Nat) (hW : 1 ≤ W) (a b : TRepr) (form : Nat)
+    (ha : a.Canon W) (hb : b.Canon W) :
+    (a.add W b form).value W = a.value W + b.value W ∧ (a.add W b form).Canon W :=
+  TRepr.add_spec W hW a b form ha hb
+
+/-- `sub_large_dword`: no borrow out of a canonical heap value, exact, canonical -/
+theorem sub_large_dword_exact (W : Nat) (lhs : List Nat) (d : Nat)
+    (hc : (TRepr.large lhs).Canon W) (hd : d < 2 ^ (2 * W)) :
+    (subDwordInPlace W lhs d).2 = 0 ∧
+    (subLargeDword W lhs d).value W + d = val W lhs ∧ (subLargeDword W lhs d).Canon W :=
+  subLargeDword_spec W lhs d hc hd
+
+/-- `sub_large_ref_val` is `sub_large` computed in the other buffer -/
+theorem sub_large_ref_val_eq (W : Nat) (lhs rhs : List Nat) :
+    subLargeRefVal W lhs rhs = subLarge W lhs rhs :=
+  subLargeRefVal_eq W lhs rhs
+
+/-- **UBig − UBig** — both dispatch variants: exact canonical difference when `b ≤ a`,
+    the documented panic otherwise (never a wrapped value). -/
+theorem u_sub_exact (W : Nat) (a b : TRepr) (refVal : Bool) (ha : a.Canon W) (hb : b.Canon W) :
+    (b.value W ≤ a.value W →
+      ∃ r, a.sub W b refVal = .ok r ∧ r.value W = a.value W - b.value W ∧ r.Canon W) ∧
+    (a.value W < b.value W → a.sub W b refVal = .error .negativeUBig) := by
+  refine ⟨fun h => ?_, fun h => TRepr.sub_err W a b refVal ha hb h⟩
+  obtain ⟨r, h1, h2, h3⟩ := TRepr.sub_ok W a b refVal ha hb h
+  exact ⟨r, h1, by omega, h3⟩
+
+/-- the subtraction succeeds **iff** it does not go below zero -/
+theorem u_sub_ok_iff (W : Nat) (a b : TRepr) (refVal : Bool) (ha : a.Canon W) (hb : b.Canon W) :
+    (∃ r, a.sub W b refVal = .ok r) ↔ b.value W ≤ a.value W := by
+  constructor
+  · rintro ⟨r, hr⟩
+    apply Nat.le_of_not_lt
+    intro hlt
+    rw [TRepr.sub_err W a b refVal ha hb hlt] at hr
+    cases hr
+  · intro h
+    obtain ⟨r, h1, _, _⟩ := TRepr.sub_ok W a b refVal ha hb h
+    exact ⟨r, h1⟩
+
+/-- `SubSigned` on magnitudes (all forms): exact signed difference, canonical, no negative zero -/
+theorem sub_signed_exact (W : Nat) (a b : TRepr) (form : Nat) (ha : a.Canon W) (hb : b.Canon W) :
+    (a.subSigned W b form).value W = (a.value W : Int) - b.value W ∧
+    (a.subSigned W b form).WF W :=
+  TRepr.subSigned_spec W a b form ha hb
+
+/-- the canonical representation of a natural number (what the driver feeds to the model) -/
+theorem of_nat_exact (W : Nat) (hW : 1 ≤ W) (n : Nat) :
+    (ofNat W n).value W = n ∧ (ofNat W n).Canon W :=
+  ⟨ofNat_value W hW n, ofNat_canon W hW n⟩
+
+/-- `Repr::with_sign`, `Repr::neg`, `into_sign_repr` -/
+theorem with_sign_exact (W : Nat) (m : TRepr) (neg : Bool) (hc : m.Canon W) :
+    (withSign m neg).value W = (if neg then -(m.value W : Int) else (m.value W : Int)) ∧
+    (withSign m neg).WF W :=
+  ⟨withSign_value W m neg, withSign_wf W m neg hc⟩
+
+theorem i_neg_exact (W : Nat) (r : SRepr) (h : r.WF W) :
+    r.negate.value W = - r.value W ∧ r.negate.WF W :=
+  ⟨SRepr.negate_value W r, SRepr.negate_wf W r h⟩
+
+theorem of_int_exact (W : Nat) (hW : 1 ≤ W) (i : Int) :
+    (SRepr.ofInt W i).value W = i ∧ (SRepr.ofInt W i).WF W :=
+  ⟨SRepr.ofInt_value W hW i, SRepr.ofInt_wf W hW i⟩
+
+-- ====================================================================== + and − : operators
+
+/-- **IBig + IBig** (and the mixed UBig/IBig forms, which pass a non-negative operand) for every
+    sign combination and every ownership form: exact `Int` sum, canonical magnitude, never "−0". -/
+theorem i_add_exact (W : Nat) (hW : 1 ≤ W) (a b : SRepr) (form : Nat) (ha : a.WF W) (hb : b.WF W) :
+    (ibigAdd W a b form).value W = a.value W + b.value W ∧ (ibigAdd W a b form).WF W :=
+  ibigAdd_spec W hW a b form ha hb
+
+/-- **IBig − IBig** likewise -/
+theorem i_sub_exact (W : Nat) (hW : 1 ≤ W) (a b : SRepr) (form : Nat) (ha : a.WF W) (hb : b.WF W) :
+    (ibigSub W a b form).value W = a.value W - b.value W ∧ (ibigSub W a b form).WF W :=
+  ibigSub_spec W hW a b form ha hb
+
+/-- exactly what the driver evaluates for `i.add` / `i.sub`: for all integers -/
+theorem i_add_sub_of_int (W : Nat) (hW : 1 ≤ W) (x y : Int) (form : Nat) :
+    (ibigAdd W (.ofInt W x) (.ofInt W y) form).value W = x + y ∧
+    (ibigSub W (.ofInt W x) (.ofInt W y) form).value W = x - y := by
+  have hx := SRepr.ofInt_wf W hW x
+  have hy := SRepr.ofInt_wf W hW y
+  rw [(ibigAdd_spec W hW _ _ form hx hy).1, (ibigSub_spec W hW _ _ form hx hy).1,
+    SRepr.ofInt_value W hW, SRepr.ofInt_value W hW]
+  exact ⟨rfl, rfl⟩
+
+/-- exactly what the driver evaluates for `u.add` / `u.sub`: for all naturals -/
+theorem u_add_sub_of_nat (W : Nat) (hW : 1 ≤ W) (x y : Nat) (form : Nat) (refVal : Bool) :
+    ((ofNat W x).add W (ofNat W y) form).value W = x + y ∧
+    (y ≤ x → ∃ r, (ofNat W x).sub W (ofNat W y) refVal = .ok r ∧ r.value W = x - y) ∧
+    (x < y → (ofNat W x).sub W (ofNat W y) refVal = .error .negativeUBig) := by
+  have hx := ofNat_canon W hW x
+  have hy := ofNat_canon W hW y
+  have vx := ofNat_value W hW x
+  have vy := ofNat_value W hW y
+  refine ⟨?_, ?_, ?_⟩
+  · rw [(TRepr.add_spec W hW _ _ form hx hy).1, vx, vy]
+  · intro h
+    obtain ⟨r, h1, h2, _⟩ := TRepr.sub_ok W _ _ refVal hx hy (by rw [vx, vy]; exact h)
+    rw [vx, vy] at h2
+    exact ⟨r, h1, by omega⟩
+  · intro h
+    exact TRepr.sub_err W _ _ refVal hx hy (by rw [vx, vy]; exact h)
+
+-- ====================================================================== × : small operands
+
+/-- `mul_word_in_place_with_carry` -/
+theorem mul_word_in_place_exact (W : Nat) (ws : List Nat) (rhs c : Nat) (hw : IsWords W ws)
+    (hr : rhs < 2 ^ W) (hc : c < 2 ^ W) :
+    let r := mulWordInPlace W ws rhs c
+    val W r.1 + 2 ^ (W * ws.length) * r.2 = val W ws * rhs + c ∧
+    r.1.length = ws.length ∧ IsWords W r.1 ∧ r.2 < 2 ^ W :=
+  mulWordInPlace_spec W ws rhs c hw hr hc
+
+/-- `shl_in_place` by `s ≤ W` bits with a carry-in `< 2^s`: the OR of disjoint bits is the sum, so the
+    shift is multiplication by `2^s` -/
+theorem shl_in_place_exact (W : Nat) (ws : List Nat) (s c : Nat) (hw : IsWords W ws)
+    (hs : s < W) (hc : c < 2 ^ s) :
+    let r := shlInPlace W ws s c
+    val W r.1 + 2 ^ (W * ws.length) * r.2 = val W ws * 2 ^ s + c ∧
+    r.1.length = ws.length ∧ IsWords W r.1 ∧ r.2 < 2 ^ W := by
+  rw [shlInPlace_eq_mulWord W ws s c hw (by omega) hc]
+  exact mulWordInPlace_spec W ws (2 ^ s) c hw (Nat.pow_lt_pow_right (by omega) hs)
+    (Nat.lt_of_lt_of_le hc (Nat.pow_le_pow_right (by omega) (by omega)))
+
+/-- `mul_dword_in_place`, including the odd leftover word; the carry is a double word -/
+theorem mul_dword_in_place_exact (W : Nat) (ws : List Nat) (rhs c : Nat) (hw : IsWords W ws)
+    (hr : rhs < 2 ^ (2 * W)) (hc : c < 2 ^ (2 * W)) :
+    let r := mulDwordInPlace W ws rhs c
+    val W r.1 + 2 ^ (W * ws.length) * r.2 = val W ws * rhs + c ∧
+    r.1.length = ws.length ∧ IsWords W r.1 ∧ r.2 < 2 ^ (2 * W) :=
+  mulDwordInPlace_spec W rhs hr ws.length ws c rfl hw hc
+
+/-- `u64::is_power_of_two` as modelled: a set `isPow2` flag means `n = 2^log2 n` -/
+theorem is_pow2_exact (n : Nat) (h : isPow2 n = true) : n = 2 ^ Nat.log2 n := isPow2_eq n h
+
+theorem mul_dword_exact (W a b : Nat) (ha : a < 2 ^ (2 * W)) (hb : b < 2 ^ (2 * W)) :
+    (mulDword W a b).value W = a * b ∧ (mulDword W a b).Canon W :=
+  mulDword_spec W a b ha hb
+
+theorem mul_large_dword_exact (W : Nat) (buffer : List Nat) (rhs : Nat) (hw : IsWords W buffer)
+    (hr : rhs < 2 ^ (2 * W)) :
+    (mulLargeDword W buffer rhs).value W = val W buffer * rhs ∧
+    (mulLargeDword W buffer rhs).Canon W :=
+  mulLargeDword_spec W buffer rhs hw hr
+
+/-- **UBig × UBig** over the model: exact and canonical in every arm.  The inline×inline and
+    heap×inline arms are refined down to the word loops; the heap×heap arm is refined where the model
+    mirrors the kernel and is the specification itself where it is still at the frontier (see
+    `FRONTIER` in vlib/props/c01.py). -/
+theorem u_mul_exact (W : Nat) (hW : 1 ≤ W) (a b : TRepr) (ha : a.Canon W) (hb : b.Canon W) :
+    (a.mul W b).value W = a.value W * b.value W ∧ (a.mul W b).Canon W :=
+  TRepr.mul_spec W hW a b ha hb
+
+theorem u_sqr_exact (W : Nat) (hW : 1 ≤ W) (a : TRepr) (ha : a.Canon W) :
+    (a.sqr W).value W = a.value W * a.value W ∧ (a.sqr W).Canon W :=
+  TRepr.sqr_spec W hW a ha
+
+/-- **IBig × IBig**: sign rule `sign0 * sign1` on top of the magnitude product; never "−0" -/
+theorem i_mul_exact (W : Nat) (hW : 1 ≤ W) (a b : SRepr) (ha : a.WF W) (hb : b.WF W) :
+    (ibigMul W a b).value W = a.value W * b.value W ∧ (ibigMul W a b).WF W :=
+  ibigMul_spec W hW a b ha hb
+
+/-- `cubic = a · a²` as the driver evaluates it -/
+theorem u_cubic_exact (W : Nat) (hW : 1 ≤ W) (a : TRepr) (ha : a.Canon W) :
+    (a.mul W (a.sqr W)).value W = a.value W * a.value W * a.value W := by
+  have hs := TRepr.sqr_spec W hW a ha
+  rw [(TRepr.mul_spec W hW a _ ha hs.2).1, hs.1, Nat.mul_assoc]
+
+-- non-vacuity: canonical heap operands exist, reach the borrow/shrink and sign paths
+example : (TRepr.large [0, 0, 1]).Canon 64 ∧ (TRepr.large [1, 0, 1]).Canon 64 := by
+  constructor <;> decide
+example : (TRepr.large [0, 0, 1]).sub 64 (TRepr.large [1, 0, 1]) = .error .negativeUBig := by decide
+example : (TRepr.large [1, 0, 1]).sub 64 (TRepr.large [0, 0, 1]) = .ok (.small 1) := by decide
+example : (TRepr.large [0, 0, 1]).subSigned 64 (TRepr.large [1, 0, 1]) = ⟨true, .small 1⟩ := by decide
+example : (SRepr.mk true (.small 5)).WF 64 := ⟨by decide, by decide⟩
+example : IsWords 8 [255, 255, 1] ∧ (mulWordInPlace 8 [255, 255, 1] 255 0) = ([1, 255, 253], 1) := by
+  constructor <;> decide
+
 
 -- non-vacuity: a concrete 3-word operand pair meets the hypotheses and carries out of the top word
 example : IsWords 64 [2^64-1, 2^64-1, 2^64-1] ∧ IsWords 64 [1, 0, 0] ∧
